@@ -135,7 +135,7 @@ fn fail(sig: impl Into<String>, msg: impl Into<String>) -> Fail {
 }
 
 /// Compare one run with the model.
-pub fn check_run(c: &Case, exp: &Expectation, out: &RunOut) -> Result<(), Fail> {
+pub fn check_run(c: &Case, exp: &Expectation, out: &RunOut, interp4: bool) -> Result<(), Fail> {
     if let Err(m) = &out.result {
         let class = if m.contains("panicked") {
             "component-panicked"
@@ -343,6 +343,12 @@ pub fn check_run(c: &Case, exp: &Expectation, out: &RunOut) -> Result<(), Fail> 
         for (j, (raw, got)) in rs.iter().enumerate() {
             let name = format!("y{snap}_m{j}");
             let Some(Some(m)) = out.snaps.get(&name) else { continue };
+            // (4-state interpreter: a <= 64-bit flip-flop loses the payload of a
+            // partially unknown value — power-on X concatenated with known bits
+            // can still get here; known simulator defect, not a component matter)
+            if interp4 && m.width <= 64 && m.has_xz() {
+                continue;
+            }
             let m = if *raw { m.payload_only() } else { m.clone() };
             if *got != m {
                 return Err(fail(
@@ -376,14 +382,18 @@ fn wclass(w: u32) -> String {
 fn classes_of(c: &Case) -> BTreeSet<String> {
     let mut s = BTreeSet::new();
     s.insert(if c.xz { "stimulus:4state-xz" } else { "stimulus:2state" }.to_string());
+    s.insert(if c.gated { "clock:gated" } else { "clock:plain" }.to_string());
     for i in &c.ins {
         s.insert(format!("in:{}", wclass(i.iw)));
         s.insert(
             match &i.src {
                 Src::Plain(case::Base::T) => "src:tb-var",
-                Src::Plain(case::Base::S) => "src:ff-output",
-                Src::Slice(..) => "src:slice-expr",
-                Src::Cat => "src:concat-expr",
+                Src::Plain(case::Base::S) => "src:ff-via-dut-port",
+                Src::Plain(case::Base::L) => "src:ff-storage-local",
+                Src::Plain(case::Base::H) => "src:ff-storage-hier-ref",
+                Src::Slice(b, ..) if b.is_ff() => "src:slice-of-ff",
+                Src::Slice(..) => "src:slice-of-tb-var",
+                Src::Cat(_) => "src:concat-expr",
                 Src::Not(_) => "src:not-expr",
                 Src::Out(_) => "src:component-output-loopback",
             }
@@ -458,6 +468,7 @@ fn nontrivial(c: &Case, exp: &Expectation) -> bool {
 }
 
 pub static SKIPS: AtomicU64 = AtomicU64::new(0);
+pub static EXCLUDED: AtomicU64 = AtomicU64::new(0);
 pub static T_ANALYZE: AtomicU64 = AtomicU64::new(0);
 pub static T_RUN: AtomicU64 = AtomicU64::new(0);
 pub static T_CC: AtomicU64 = AtomicU64::new(0);
@@ -469,14 +480,17 @@ pub fn check_case(d: &mut Draw, big: bool, lib: &std::path::Path) -> Outcome {
     let states: &[bool] = if c.xz { &[true] } else { &[false, true] };
     let mut cfgs = vec![];
     for &four_state in states {
-        let mut engines = vec![(false, false), (true, false), (true, true), (false, true)];
-        if four_state {
-            // EXCLUDED engine {4-state, interpreter, disable_ff_opt}: on it a flip-flop
-            // of <= 64 bits stores payload 0 for every bit of a partially unknown
-            // value (simulator defect without any component involved, reproducer
-            // /verif/known/C35/ff-xz-interp-noffopt.veryl) — the mirror / capture
-            // flip-flops this check measures with are then wrong themselves.
-            engines.pop();
+        let mut engines = vec![(true, false), (true, true), (false, false), (false, true)];
+        if four_state && (c.xz || c.outxz) {
+            // EXCLUDED by construction: the 4-state INTERPRETER with partially
+            // unknown values.  On it a flip-flop of <= 64 bits stores payload 0 for
+            // every bit of a value that has any X/Z bit (simulator defect without
+            // any component involved, reproducers /verif/known/C35/ff-xz-interp*.veryl)
+            // — the mirror / capture / stimulus flip-flops this check measures with
+            // are then wrong themselves.  The 4-state interpreter still runs the
+            // cases in which neither the stimulus nor the probe produces X/Z.
+            engines.truncate(2);
+            EXCLUDED.fetch_add(1, Ordering::Relaxed);
         }
         if !big {
             // two of the (interp/jit x ff-opt) engines per state
@@ -497,7 +511,7 @@ pub fn check_case(d: &mut Draw, big: bool, lib: &std::path::Path) -> Outcome {
             }
         }
     }
-    if !c.xz && d.chance(1, if big { 10 } else { 50 }) {
+    if !c.xz && d.chance(1, if big { 10 } else { 40 }) {
         for dlopen in [false, true] {
             cfgs.push(EngineCfg {
                 four_state: false,
@@ -542,7 +556,7 @@ pub fn check_case(d: &mut Draw, big: bool, lib: &std::path::Path) -> Outcome {
         };
         RUNS.fetch_add(1, Ordering::Relaxed);
         let exp = case::model(&c, cfg.four_state);
-        if let Err(f) = check_run(&c, &exp, &out) {
+        if let Err(f) = check_run(&c, &exp, &out, cfg.four_state && !cfg.jit) {
             return Outcome::fail(
                 f.sig,
                 format!("[{}] {}", cfg.label(), f.msg),
@@ -684,12 +698,18 @@ pub fn run(ctx: &Ctx) {
     let n = std::env::var("C35_CASES").ok().and_then(|v| v.parse().ok()).unwrap_or(ctx.scale(800, 30_000));
     let lib2 = lib.clone();
     let threads = std::env::var("C35_THREADS").ok().and_then(|v| v.parse().ok()).unwrap_or(0);
-    ctx.run("probe", CaseCfg::cases(n).choices(6000).stack_mb(16).threads(threads), move |d: &mut Draw| {
+    ctx.run("probe", CaseCfg::cases(n).choices(6000).stack_mb(16).threads(threads).timeout_s(1800), move |d: &mut Draw| {
         check_case(d, big, &lib2)
     });
+    // `finish` never returns: remove the cc cache now
+    drop(scratch);
     let skips = SKIPS.load(Ordering::Relaxed);
     ctx.note("simulator_runs", json!(RUNS.load(Ordering::Relaxed)));
     ctx.note("generator_rejects", json!(skips));
+    ctx.note(
+        "cases_without_4state_interpreter_because_of_known_ff_xz_defect",
+        json!(EXCLUDED.load(Ordering::Relaxed)),
+    );
     if std::env::var("C35_DEBUG").is_ok() {
         eprintln!(
             "thread-time: analyze {} ms, runs {} ms, cc runs {} ms",
@@ -707,6 +727,7 @@ pub fn run(ctx: &Ctx) {
     ctx.assume("power-on values of flip-flops and never-assigned variables are not asserted (the model treats them as unspecified); the relational check 'hook read == mirror flip-flop' still applies to them");
     ctx.assume("observation of the DUT side: zero-time blocking assignments in the testbench `initial` block copy the observed signals into snapshot variables right after each `clk.next()`; these are read with Simulator::get_var after the run");
     ctx.assume("the cc backend is 2-state only (Config::all), so it runs on cases without X/Z stimulus");
+    ctx.assume("EXCLUDED by construction (simulator defects found here that involve no component, reproducers under /verif/known/C35/): (a) the 4-state interpreter stores payload 0 for every bit of a <= 64-bit flip-flop whose new value has any X/Z bit (ff-xz-interp.veryl, ff-xz-interp-noffopt.veryl) — cases in which the stimulus or the probe produces X/Z run on the 4-state JIT engines only, the 4-state interpreter runs the others; (b) the 4-state JIT makes the whole result of an operator unknown when a > 128-bit operand has any unknown bit (not-xz-wide-jit.veryl) — the comb observer `b >> 1` behind an output is not asserted in that situation and `~` is applied to fully known operands only");
     ctx.finish(
         "exploration",
         "generated #[test] modules: probe component with 1-5 inputs / 1-4 outputs of width 1..300 (boundary widths 63/64/65/127/128/129/.. favoured), input sources tb variable / flip-flop output / slice / concat / not / loop-back of a component output, 2-8 stimulus blocks of corner-biased values (X/Z masks in 2/5 of the cases), parameters and method calls of width 1..300, run on 2-4 engine configurations per state x both native transports; non-trivial = some port wider than 64 bits or X/Z stimulus, at least 2 clock edges and an input that holds two different values at two edges; distinct by hash of the generated Veryl text",
